@@ -2,7 +2,7 @@
 From Coq Require Import List NArith ZArith Bool.
 From Muscle Require Import Gen.Consts Refl.Base Refl.BaseProofs Refl.Tree Refl.Matcher Refl.Session Refl.Server Refl.ServerProofs
      Refl.IsoModel Refl.IsoBase Refl.IsoFrame Refl.IsoProofs Refl.IsoTold Refl.IsoDetach Refl.IsoRun Refl.IsoClean
-     Refl.IsoSimBase Refl.IsoSim Refl.IsoHosts Refl.IsoNever Refl.IsoKick Refl.IsoAsIf Refl.IsoCut Refl.IsoHonest Refl.IsoQuiet Refl.IsoExamples.
+     Refl.IsoSimBase Refl.IsoSim Refl.IsoHosts Refl.IsoNever Refl.IsoKick Refl.IsoAsIf Refl.IsoCut Refl.IsoOrd Refl.IsoOrdProofs Refl.IsoHonest Refl.IsoQuiet Refl.IsoExamples.
 Import ListNotations.
 
 (* A client cannot give itself privileges. *)
@@ -223,6 +223,65 @@ Proof.
   cbv zeta. split; [|split; [|split]; vm_compute; reflexivity].
   repeat constructor; vm_compute; intros H; discriminate H.
 Qed.
+
+(* ORDERED CHILDREN (model: Refl/IsoOrd.v -- PR_COMMAND_INSERTORDEREDDATA with one key, PR_COMMAND_REORDERDATA, the ordered
+   index and the name counter of every node, index entries and counters going with removed nodes).
+   FRAME: whatever command s sends -- INSERTORDEREDDATA, REORDERDATA, anything of the dispatcher model, alone or in batches,
+   with any keys, wildcards and absolute paths -- the frame of C06_xhandle_xframe holds for tree, sessions and privileges,
+   and the ordered index and the name counter of every node outside s's subtree are what they were ([ok]: indices and
+   counters belong to existing nodes at session level or below -- true in every reachable state, last theorem). *)
+Theorem C06_ord_frame : forall (M : MatchOps) (fx : fixes) (iname : N -> name) c nest (os : oserver) s ss,
+  get_session (xs_sv (o_x os)) s = Some ss -> ok os ->
+  let os' := ohandle fx iname nest os s c in
+  xframe s (session_dir ss) (o_x os) (o_x os') /\
+  idx_out (session_dir ss) (o_idx os') = idx_out (session_dir ss) (o_idx os) /\
+  ctr_out (session_dir ss) (o_ctr os') = ctr_out (session_dir ss) (o_ctr os) /\ ok os'.
+Proof. exact @ohandle_frame. Qed.
+Print Assumptions C06_ord_frame.
+
+(* the same for a whole turn of the server (handler, update push, removal of kicked sessions, pruning) of an unprivileged s *)
+Theorem C06_ord_turn_frame : forall (M : MatchOps) (fx : fixes) (iname : N -> name) (os : oserver) s c ss,
+  get_session (xs_sv (o_x os)) s = Some ss -> ok os -> unprivileged (o_x os) s -> xs_ducks (o_x os) = [] ->
+  let os' := ostep fx iname os (OCmd s c) in
+  xframe s (session_dir ss) (o_x os) (o_x os') /\
+  idx_out (session_dir ss) (o_idx os') = idx_out (session_dir ss) (o_idx os) /\
+  ctr_out (session_dir ss) (o_ctr os') = ctr_out (session_dir ss) (o_ctr os) /\ ok os'.
+Proof. exact @ostep_frame. Qed.
+Print Assumptions C06_ord_turn_frame.
+
+(* DETACH with ordered children: the dispatcher part is left clean as in C06_xdetach_clean, no ordered index and no name
+   counter at or below s's directory is left (a later session or node of the same name starts from "I0" with an empty index),
+   and the indices and counters of all nodes outside it are what they were *)
+Theorem C06_ord_detach_clean : forall (M : MatchOps) (L : MatchLaws M) (fx : fixes), fx_guard fx = true ->
+  forall (iname : N -> name) B (os : oserver) s ss, small B -> inv B (xs_sv (o_x os)) -> xs_ducks (o_x os) = [] ->
+  get_session (xs_sv (o_x os)) s = Some ss -> ok os ->
+  let os' := ostep fx iname os (ODetach s) in
+  left_clean (o_x os) s ss (o_x os') /\
+  (forall e, In e (o_idx os') -> is_prefix (session_dir ss) (fst e) = false) /\
+  (forall e, In e (o_ctr os') -> is_prefix (session_dir ss) (fst e) = false) /\
+  idx_out (session_dir ss) (o_idx os') = idx_out (session_dir ss) (o_idx os) /\
+  ctr_out (session_dir ss) (o_ctr os') = ctr_out (session_dir ss) (o_ctr os) /\ ok os'.
+Proof. exact @odetach_clean. Qed.
+Print Assumptions C06_ord_detach_clean.
+
+Theorem C06_ord_reachable_ok : forall (M : MatchOps) (fx : fixes) (iname : N -> name) evs (os : oserver),
+  ok os -> ok (orun fx iname evs os).
+Proof. exact @orun_ok. Qed.
+Print Assumptions C06_ord_reachable_ok.
+
+(* non-vacuity: in the example history session 11 builds an index [I2; I1; I0] under its node 7 (inserts before a given
+   entry, a reorder), session 10's INSERTORDEREDDATA / REORDERDATA aimed at that node -- absolute paths, wildcards, in a
+   batch -- change nothing, a removed child leaves the index, and 11's departure takes index and counter along *)
+Example C06_ord_premises_satisfiable :
+  ok (@empty_oserver ExOps) /\
+  o_idx (orun all_fixed ex_iname (firstn 6 ex_ohistory) empty_oserver) = [([1%N; 11%N; 7%N], [1001%N; 1000%N])] /\
+  o_idx (orun all_fixed ex_iname (firstn 7 ex_ohistory) empty_oserver) = [([1%N; 11%N; 7%N], [1001%N; 1000%N])] /\
+  o_idx (orun all_fixed ex_iname (firstn 8 ex_ohistory) empty_oserver) = [([1%N; 11%N; 7%N], [1002%N; 1001%N; 1000%N])] /\
+  o_idx (orun all_fixed ex_iname ex_ohistory empty_oserver) = [([1%N; 11%N; 7%N], [1002%N; 1001%N])] /\
+  o_ctr (orun all_fixed ex_iname ex_ohistory empty_oserver) = [([1%N; 11%N; 7%N], 3%N)] /\
+  o_idx (ostep all_fixed ex_iname (orun all_fixed ex_iname ex_ohistory empty_oserver) (ODetach 11%N)) = [] /\
+  o_ctr (ostep all_fixed ex_iname (orun all_fixed ex_iname ex_ohistory empty_oserver) (ODetach 11%N)) = [].
+Proof. split; [apply ok_empty|]. vm_compute. repeat split; reflexivity. Qed.
 
 (* FORGED SESSION FIELDS.  Whatever what-code, keys and PR_NAME_SESSION string a session puts into a Message, in any state:
    everything the dispatcher adds to the outgoing log is either a bounce / reply to the sender itself, or a copy for SOMEBODY
